@@ -36,7 +36,7 @@ func evalCode(code *compiler.Code) (obs N) {
 	stdout := ros.NewBufferFile(nil)
 	ctx, cancel := context.WithTimeout(context.Background(), 3*time.Second)
 	defer cancel()
-	vos := ros.NewVirtualOS(ctx, ros.WithStdout(stdout))
+	vos := ros.NewVirtualOS(ctx, ros.WithStdout(stdout), ros.WithEnvironment(run.HostEnv()))
 	defer func() {
 		if r := recover(); r != nil {
 			obs = N{"k": "gopanic", "msg": fmt.Sprint(r), "out": run.Cps(string(stdout.Bytes()))}
@@ -239,7 +239,7 @@ func piecesWorker(req N) (resp N) {
 	stdout := ros.NewBufferFile(nil)
 	ctx, cancel := context.WithTimeout(context.Background(), 5*time.Second)
 	defer cancel()
-	vos := ros.NewVirtualOS(ctx, ros.WithStdout(stdout))
+	vos := ros.NewVirtualOS(ctx, ros.WithStdout(stdout), ros.WithEnvironment(run.HostEnv()))
 	cfg := risor.NewConfig(risor.WithOS(vos), risor.WithGlobal("hostv", 10))
 	c, err := compiler.New(cfg.CompilerOpts()...)
 	if err != nil {
@@ -432,7 +432,7 @@ func gocallWorker(req N) (resp N) {
 	src := req["src"].(string)
 	ctx, cancel := context.WithTimeout(context.Background(), 3*time.Second)
 	defer cancel()
-	vos := ros.NewVirtualOS(ctx, ros.WithStdout(stdout))
+	vos := ros.NewVirtualOS(ctx, ros.WithStdout(stdout), ros.WithEnvironment(run.HostEnv()))
 	cfg := risor.NewConfig(risor.WithOS(vos))
 	prog, err := parser.Parse(ctx, src)
 	if err != nil {
